@@ -16,6 +16,7 @@ Also decided: one forest object per (node, environment) slot; in drf.predict('sa
 row and the training row read back agree; the acyclicity core of C03 for the 'graph is not a DAG' clause.
 Not decided: that the R forest's weights are meaningful (external).
 """
+import ast
 from .common import *
 from .C13 import rng_rules
 from .. import api
@@ -104,6 +105,15 @@ def run(prog, rep, tier):
         ("n-list-element-not-positive", "ValueError", [[(cmp_("<=", ne, ("const", 0)), True)]]),
     ]
     contract(rep, S2, f2, clauses2)
+    # every entry of a list n is validated: the loop over the entries is left only by an exception (a `return` / `break` inside
+    # it accepts the rest of the list unseen)
+    early = [r for r in S2.select("return", qname=f2.qname) if r.loops] + [x for x in S2.facts if x.qname == f2.qname and x.kind == "break"]
+    brk = [n_ for n_ in ast.walk(f2.node) if isinstance(n_, ast.Break)]
+    if early or brk:
+        rep.bad("CONTRACT.every-entry", fwhere(f2, early[0].node if early else brk[0]), "the validation loop over the entries of n is left after the first accepted entry: "
+                "later entries (0, negative, non-int) are never checked")
+    else:
+        rep.ok("CONTRACT.every-entry", fwhere(f2), "the loop over the entries of n is only left by an exception")
     # ---------------------------------------------------------------- DRFNet.__init__ : writer
     f3 = need(prog, SE + "DRFNet.__init__")
     S3 = Sym(prog)
